@@ -15,12 +15,13 @@ Fixpoint pascal_go (tolow cap : bool) (s : str) : str :=
   end.
 Definition to_pascal_case (s:str) : str := pascal_go (all_upper s) true s.
 
-(* rename.rs:20 to_camel_case: pascal[..1].to_ascii_lowercase() + &pascal[1..]
-   byte slicing panics on an empty string and inside a multi-byte first character. *)
+(* rename.rs:20 to_camel_case: the first CHARACTER of the PascalCase form is ASCII-lowered (no byte slicing
+   since the /repo fix: an empty form stays empty, a non-ASCII first character is left alone). The result type
+   stays `outcome` because callers are written in the monad; it never fails. *)
 Definition to_camel_case (s:str) : outcome str :=
   match to_pascal_case s with
-  | [] => Panic "rename.rs:22"
-  | c :: r => if c <? 128 then Ok (alower c :: r) else Panic "rename.rs:22"
+  | [] => Ok []
+  | c :: r => Ok (alower c :: r)
   end.
 
 Section U.
